@@ -296,14 +296,14 @@ def report(pid, tier, seed, pc, results, wall, scratch):
             bad = []
             for f in r.failures:
                 tm = ext.get(f.get("fn") or "")
-                if tm is None or tm in r.assumed:
+                if tm is None or tm in r.assumed or (f.get("fn") or "") in r.assumed:
                     if not any(match_known(known, q, f["obligation"]) for q in f["props"]):
                         bad.append(f.get("fn") or f["obligation"])
             if bad:
                 undecided.append(f"{r.name} (a unit whose contracts {pid}'s units assume): {', '.join(sorted(set(bad)))} no longer meet(s) the contract assumed of it; {pid} is not answered 'holds' (the violation is reported by the checks that contract is attributed to)")
             if r.undecided:
                 undecided.append(f"{r.name} (a unit whose contracts {pid}'s units assume) could not be verified on this tree: {r.undecided[0][:200]}")
-            dep_notes.append(f"{r.name}: contracts of {', '.join(sorted(t + '::' + m for t, m in r.assumed))} assumed by this property's units; the unit was re-verified in this run ({'failed / undecided' if (bad or r.undecided) else 'verified'})")
+            dep_notes.append(f"{r.name}: contracts of {', '.join(sorted((x if isinstance(x, str) else x[0] + '::' + x[1]) for x in r.assumed))} assumed by this property's units; the unit was re-verified in this run ({'failed / undecided' if (bad or r.undecided) else 'verified'})")
             solver += r.solver_s
             continue
         # only the obligations mapped to this property are counted for it
